@@ -172,6 +172,19 @@ def run(index, tier="quick", seed=0) -> Result:
     _copy1(res, index, lambda f: f['cls'] in ('ConvexSpheropolygon', 'ConvexSpheropolyhedron') and f['top'] in ('volume', 'surface_area', 'mean_curvature', 'signed_area', 'area', 'perimeter') or (f['cls'] == 'ConvexPolyhedron' and f['top'] in ('mean_curvature', 'tau', 'asphericity')))
     from ..frame2 import check as _frame2
     _frame2(res, index, "ConvexSpheropolygon", ("signed_area", "area", "perimeter"))
+    # ST-5: per-edge sequences that are multiplied / added element by element follow the same enumeration of the edges
+    # (the cached `edges` / `edge_lengths` are sorted by vertex index, `_get_face_intersections` yields face pairs)
+    for cname_, member_ in (("ConvexPolyhedron", "mean_curvature"), ("ConvexSpheropolyhedron", "mean_curvature"),
+                            ("ConvexSpheropolyhedron", "volume"), ("ConvexSpheropolyhedron", "surface_area")):
+        v_, r_, f_ = gv(index, cname_, member_)
+        mism = [e for e in r_["events"] if e.type == "order-mismatch"]
+        k_ = f"{cname_}.{member_}"
+        if mism:
+            e = mism[0]
+            res.bad("ST-5", k_ + ":pairing", e.where(), f"{k_}: `{e.src()[:70]}` combines, element by element, a sequence in the order of "
+                    f"`{e.orders[0]}` with one in the order of `{e.orders[1]}`: each edge length meets the dihedral angle of another edge")
+        else:
+            res.ok("ST-5", k_, nontrivial=False)
     return res
 
 
